@@ -1,5 +1,5 @@
 """C13 - coverage reports and saved databases equal the in-memory coverage."""
-from .. import engine, fam_cov
+from .. import engine, fam_cov, fam_mc
 
 LEVEL = "model_checking"
 MODULE = "Trace_VscCov"
@@ -9,11 +9,15 @@ RUNNER = ("runner_cov", "run_scenario")
 def run(tier, seed, limit=0):
     chk = engine.Check("C13", tier, seed)
     scs = fam_cov.family_types(tier, seed, reports=True) + fam_cov.family_report_kinds(tier, seed)
+    mc_scs, sim_states = fam_mc.family_mc_cov(tier, seed, reports=True)      # TLC-generated behaviours of MC_VscCov, replayed
+    scs = scs + mc_scs
+    chk.extra_cov["tlc_generated_histories_replayed"] = len(mc_scs)
+    chk.extra_cov["tlc_simulation_states"] = sim_states
     if limit:
         scs = scs[:limit]
     chk.run_scenarios(scs, MODULE, fn=RUNNER, batch_events=2500)
-    return chk.finish(LEVEL, "random bin specifications (explicit bins, arrays with/without count, unordered/adjacent disjoint ranges, "
-                      "ignore/illegal sets, auto-bins with auto_bin_max, enum, iff, signed types) each sampled with every value of the "
-                      "type plus repeats and gated-off samples; TLC recomputes Partition(Values \\ Excluded, n) and every counter after "
-                      "every event; distinct = distinct event content",
+    return chk.finish(LEVEL, "report model, parsed text report (details=True) and UCIS XML read back, requested at arbitrary points of creation/sampling "
+                      "histories over all bin kinds (regular, ignore, illegal, arrays, wildcard, crosses) and after TLC-generated behaviours of "
+                      "MC_VscCov: names, kinds, counts compared exactly with the in-memory projection, percentages with the specification's "
+                      "figures; the state after the report equals the state before; distinct = distinct event content",
                       ["TLC 1.8; Cov.tla declarative bin semantics; CPython"])
